@@ -20,7 +20,9 @@ class NextRequest(Request, MutableMapping[str, Any]):
 
 def ensure_next(iterable: Iterable[bytes]) -> Iterable[bytes]:
     iterator = iterable.__iter__()
-    first_chunk = next(iterator, b"")
+    # Up to its first non-empty chunk the application may still replace its
+    # response with start_response(status, headers, exc_info).
+    first_chunk = next(filter(None, iterator), b"")
 
     def generator():
         yield first_chunk
@@ -44,16 +46,25 @@ class NextResponse(StreamingResponse):
         """
         status_code = 200
         headers: Headers = Headers()
+        relayed = False
 
         def start_response(
             status: str, response_headers: Iterable[Tuple[str, str]], exc_info=None
         ) -> None:
             nonlocal status_code
             nonlocal headers
+            if exc_info is not None and relayed:
+                # The status and headers are already on their way, the error
+                # can no longer be turned into a response (PEP 3333).
+                try:
+                    raise exc_info[1].with_traceback(exc_info[2])
+                finally:
+                    exc_info = None
             status_code = int(status.split(" ")[0])
             headers = Headers(response_headers)
 
         body = ensure_next(app(request, start_response))
+        relayed = True
         return NextResponse(body, status_code, headers)
 
 
